@@ -63,8 +63,8 @@ func runC20(c *Ctx, r *Rec) {
 				}
 			}
 			type tpCase struct {
-				tp  *types.TypeParam
-				cc  *ast.CaseClause
+				tp *types.TypeParam
+				cc *ast.CaseClause
 			}
 			var tpCases []tpCase
 			for _, cl := range ts.Body.List {
